@@ -121,6 +121,8 @@ def analyse(scn, run, target, n, hook, res, case, rep=None):
     tr = run["trace"]
     if run["result"][0] != "ok" or not run["info"].get("returned"):
         why = run["result"][0]
+        if why == "error":
+            why = f"raised {type(run['result'][1]).__name__}: {run['result'][1]}"[:160]
         res.violate(V("run-did-not-return", f"after {target} failed at its update #{n} ({hook}) TickitSimulation.run did not return ({why}, {run['steps']} loop steps)",
                       site="TickitSimulation.run", hook=hook, depth=S.depth_map(scn).get(target)), case)
         return
